@@ -3,27 +3,18 @@ import json, os
 
 VERIF = os.path.dirname(os.path.dirname(os.path.abspath(__file__)))
 
-HOOK_COMMITS = []
+HOOK_COMMITS = [l.strip() for l in open(os.path.join(os.path.dirname(os.path.abspath(__file__)), 'hook_commits.txt')) if l.strip()]
 
-CHECKS = {
- "C20": dict(level="model_checking", design="6/C20",
-   technique="TLC model checking of BloomSys/Bloom/XxHash64 TLA+ specs + replay of every TLC-generated history on the implementation (exact filter bytes)",
-   text="TLC exhaustively explores the Bloom-filter state machine (sizes x typed values x insert/merge/reload, bounded depth) checking no-false-negative, size rounding, fresh-empty and merge=union on the specification, and every explored history is replayed on carquet with the exact filter bytes and probe answers compared; XXH64 for every length 0..100+ x seeds against the byte-limb TLA+ transcription of the xxHash spec.",
-   note="Trusted: TLC; the TLA+ transcriptions of XXH64 and SBBF (validated against published vectors in MC_LibSelf); the replayer copies bytes only. Bounded depth (3 ops) and the listed sizes."),
+def _load():
+    d = os.path.join(os.path.dirname(os.path.abspath(__file__)), "registry.d")
+    out = {}
+    for fn in sorted(os.listdir(d)):
+        if fn.endswith(".json"):
+            out[fn[:-5]] = json.load(open(os.path.join(d, fn)))
+    return out
 
- "C01": dict(level="model_checking", design="6/C01",
-   technique="TLC explores Writer.tla to generate write histories; replay on carquet; TLC trace validation (WriterTrace.tla) of statuses, re-open metadata and full read-back against the table the history promised",
-   text="Write histories are the reachable Close states of the Writer state machine explored by TLC (schema catalogue over all 7 writable types x all null patterns for <= 5 rows / run-structured patterns beyond x all splits into write_batch calls x row-group cuts x def levels given/omitted), multiplied by codecs and page sizes; each is executed on the real library and the recorded trace must be a behaviour of Writer.tla whose read-back equals TableWritten. Byte arrays are dereferenced after the call and again before the next call under ASan.",
-   note="Trusted: TLC, Writer.tla/WriterTrace.tla, h_file (copies bytes only). Bounded row counts (<= 24), <= 3 batches per column and row group, <= 3 row groups; values from per-type token tables (extremes, NaN payloads, -0.0, empty/long strings)."),
- "C05": dict(level="model_checking", design="6/C05",
-   technique="TLA+ reference reader (ParquetFile.tla + ThriftCompact + Hybrid + Crc32, executed by TLC) parses every file carquet wrote from TLC-generated histories; structural predicates and table equality evaluated in WriterTrace.tla",
-   text="The independent reader demanded by the property is the TLA+ specification of the file format itself: TLC evaluates ParseFile on the produced bytes and checks magic, footer length, required Thrift fields, tiling of chunks, page-size chaining, value/row counts, encoding tags, IEEE CRC of the stored page bytes, uncompressed sizes, and that the parsed table equals the one the history promised; byte-identical output on a second run with a perturbed heap.",
-   note="Trusted: TLC and the TLA+ format modules (self-checked: MC_ThriftSelf, MC_HybridSelf, MC_LibSelf). Page bodies are judged for the codecs the TLA+ reader can decompress (evidence lists them); files <= a few KB."),
- "C14": dict(level="fault_enumeration", design="6/C14",
-   technique="Crc32.tla (TLC) supplies CRC values and checks the composition law; damage positions come from the TLA+ reference reader's page map; outcomes of reading each damaged file validated by TLC against DamageTrace.tla",
-   text="CRC function: every length/split/pattern against the table-driven TLA+ CRC-32 (IEEE) incl. update composition, at several alignments. Damage: every byte of every page body of every fixture file x damage kinds (single bit, 0xff, 32-bit burst) x {fread, mmap, buffer} x verify on/off; with verification on the trace checker requires an error at the damaged page, no row of it delivered, earlier rows unchanged, and no spurious error on intact chunks or undamaged files; with verification off only memory safety.",
-   note="Trusted: TLC, Crc32.tla (published check value), ParquetFile.tla page map, ASan/LSan as fault observers. Fixtures are carquet-written files of a few hundred bytes with several pages per chunk."),
-}
+
+CHECKS = _load()     # one JSON file per claimed property under vlib/registry.d/
 
 PENDING_REASON = "check not built yet (work in progress; planned per DESIGN.md section 6)"
 NOT_APPLICABLE = {}
